@@ -54,7 +54,14 @@ func (e *eventStream) Receive(c *Context) {
 			level, msg, attr := logMsg.Log()
 			slog.Log(context.Background(), level, msg, attr...)
 		}
-		for _, sub := range e.subs {
+		for key, sub := range e.subs {
+			// A local subscriber that is no longer registered can not receive
+			// events. Forwarding to it would produce a dead letter event for
+			// every event, including for those dead letter events themselves.
+			if c.engine.isLocalMessage(sub) && c.engine.Registry.get(sub) == nil {
+				delete(e.subs, key)
+				continue
+			}
 			c.Forward(sub)
 		}
 	}
